@@ -697,6 +697,57 @@ func c13Scenarios(tier string) []*world.Scenario {
 			}
 		}
 	}
+	// scale-out in progress: a NEW master that owns no slot yet imports its first one (its node line carries only the
+	// migration marker); requests for already migrated keys are answered -ASK to it
+	for _, kind := range []string{"get", "mget", "del"} {
+		rc := c13Cases[1] // ask-A-to-B semantics, the target being the new node D
+		key := keysA[5]
+		slot := world.SpecSlot([]byte(key))
+		nodes := append(T3m(), world.NodeSpec{Name: "ddd", Addr: AddrD, Markers: []string{fmt.Sprintf("[%d-<-aaa]", slot)}})
+		nodes[0].Markers = []string{fmt.Sprintf("[%d->-ddd]", slot)}
+		sc := c13Scenario(rc, kind, 1, b)
+		sc.Nodes = nodes
+		sc.Family = "ask-to-slotless-importing-master"
+		sc.Name = fmt.Sprintf("C13/ask-to-slotless-importing-master/%s/d%d", kind, b)
+		sc.Reply = func(w *world.World, bc *world.BConn, args [][]byte) ([]byte, int) {
+			if !hasKey(args, key) {
+				return nil, 0
+			}
+			if bc.Addr == AddrA {
+				return askTo(slot, AddrD), 0
+			}
+			if bc.Addr == AddrD {
+				n := len(bc.Log)
+				if n > 0 && world.Lower(bc.Log[n-1].Args[0]) == "asking" {
+					return nil, 0
+				}
+				return movedTo(slot, AddrA), 0
+			}
+			return nil, 0
+		}
+		inner := sc.Check
+		sc.Check = func(w *world.World) []world.Violation {
+			// the ASKING oracle of the base case looks at node B: judge the streams (final node's reply, once, in order) and
+			// that D saw ASKING directly before the request
+			for _, bc := range w.BConns {
+				if bc.Addr != AddrD {
+					continue
+				}
+				for i, rec := range bc.Log {
+					if hasKey(rec.Args, key) && (i == 0 || world.Lower(bc.Log[i-1].Args[0]) != "asking") {
+						return []world.Violation{{Sig: "ask-without-asking", Msg: fmt.Sprintf("after -ASK the request %q was re-sent to %s without a preceding ASKING", rec.Raw, AddrD)}}
+					}
+				}
+			}
+			_ = inner
+			svs := CheckStreams(w, StreamOpts{})
+			for i := range svs {
+				svs[i].Sig = "redirect-request-unanswered"
+			}
+			return svs
+		}
+		out = append(out, sc)
+	}
 	// several connections per node (the ASKING that precedes a re-sent request must travel on the SAME connection)
 	for _, rc := range c13Cases[:3] {
 		for _, kind := range []string{"get", "mget", "del"} {
